@@ -97,6 +97,23 @@ impl Kanata {
             if let Err(e) = write_key(&mut self.kbd_out, event.code, KeyValue::Repeat) {
                 bail!("could not write key {e:?}");
             }
+            return Ok(());
+        }
+        // The key has no entry in the key outputs of the layers, so the outputs of global
+        // overrides for it have not been looked at yet.
+        for osc in self
+            .overrides
+            .output_non_mods_for_input_non_mod(event.code)
+            .into_iter()
+            .rev()
+        {
+            if self.cur_keys.contains(&osc.into()) {
+                log::debug!("repeat    {:?}", KeyCode::from(osc));
+                if let Err(e) = write_key(&mut self.kbd_out, osc, KeyValue::Repeat) {
+                    bail!("could not write key {e:?}");
+                }
+                return Ok(());
+            }
         }
         Ok(())
     }
